@@ -374,6 +374,12 @@ def assoc_script(j, variant):
         else:
             q = svc.simple_ds(PatientID='Q%d' % j, StudyID=str((j + k) % 3), QueryRetrieveLevel='PATIENT')
             msgs.append(({0x0002: svc.PATIENT_FIND, 0x0100: 0x0020, 0x0110: 10 * j + k, 0x0700: 0}, svc.enc_ds(q, ts), ids[2]))
+    if variant == 4 and j == 0:
+        # this peer sends an instance whose UID cannot be turned into a file name in the storage directory: its
+        # association fails at that point - the others must not notice
+        bad = svc.simple_ds(PatientName='Bad^Uid', PatientID='P-bad', SOPClassUID=svc.SC_STORAGE, SOPInstanceUID='1.2.3.4')
+        msgs.insert(0, ({0x0002: svc.SC_STORAGE, 0x0100: 0x0001, 0x0110: 999, 0x0700: 0, 0x1000: '1.2.3/no-such-dir/4'},
+                        svc.enc_ds(bad, ts), ids[1]))
     return {'ts': ts, 'contexts': [(ids[0], svc.VERIFICATION), (ids[1], svc.SC_STORAGE), (ids[2], svc.PATIENT_FIND)],
             'max_len': [64, 200, 1024, 16384][(j + variant) % 4], 'calling': 'PEER%d' % j, 'messages': msgs,
             'end': ('release', 'abort', 'timeout')[(j + variant) % 3]}
@@ -519,10 +525,15 @@ def run_acceptors(scripts, order):
                 t.start()
             if baton is not None:
                 baton.begin()
+            import time as _time
+            deadline = _time.time() + 45
             for t in ths:
-                t.join(60)
-            if any(t.is_alive() for t in ths):
-                raise HarnessError('baton-scheduled acceptors did not finish')
+                t.join(max(0.1, deadline - _time.time()))
+            for j, t in enumerate(ths):
+                if t.is_alive():
+                    # all I/O of these bodies is scripted: a body that never returns waits for something another
+                    # association holds (or left behind)
+                    errors[j] = Blocked(baton.failed if baton is not None and baton.failed is not None else (j, j))
     finally:
         ae.server_close()
         shutil.rmtree(tmpdir, ignore_errors=True)
@@ -547,6 +558,9 @@ def baton_case(value):
     k = len(scripts)
     for j in range(k):
         alone, errs1, _ = run_acceptors([scripts[j]], [0])
+        if isinstance(errs1[0], Blocked):
+            raise Violation('%s:baton:blocked' % PROP, 'association %d never returns even when it runs alone AFTER the others ran: '
+                            'an earlier association left something behind that it waits for' % j, case)
         if scripts[j].get('role') == 'requester' and errs1[0] is not None:
             raise HarnessError('the requesting body fails on its own: %r' % (errs1[0],))
         if errs[j] is not None or errs1[0] is not None:
